@@ -8,7 +8,8 @@
    (Proofs_decomp3.v).  See docs/C12.md. *)
 From Coq Require Import Reals ZArith List.
 From PV Require Import Num NumR Model_voigt Model_decomp Proofs_tensors_alg Proofs_tensors_rot
-  Proofs_tensors_maps Proofs_tensors_proj Inst_tensors Proofs_decomp Proofs_decomp2 Proofs_decomp3.
+  Proofs_tensors_maps Proofs_tensors_proj Inst_tensors Proofs_decomp Proofs_decomp2 Proofs_decomp3
+  Model_decomp_series Proofs_decomp_series.
 From PV.gen Require Import Gen_tensors.
 Import ListNotations.
 Open Scope R_scope.
@@ -266,3 +267,116 @@ Example C12_corotation_nonvacuous :
     eigcols (mat3 (snd (k_voigt_decompose vm0))) (mat3 I3) muv /\
     @elasticity_components1 NumR M0 I3 I3 = Ok out.
 Proof. exact C12_run_nonvacuous_proof. Qed.
+
+(* ---------------------------------------------------------------------- *)
+(* The public function takes a SERIES of matrices.  Model_decomp_series is  *)
+(* the loop as written (table of rows allocated up front, iteration m       *)
+(* writes row m, an exception aborts the call); the statements below hold   *)
+(* for every Num instance F (binary64 of the extracted model as well as R)  *)
+(* and every series: any length, any entries, any order.                    *)
+(* ---------------------------------------------------------------------- *)
+
+(* the loop is the map of the single-matrix function over the series (or raises what the
+   first raising entry raises) *)
+Theorem C12_series_is_map_of_single : forall (F : Num) (Ms : list (@ecin F)),
+  elasticity_components_series Ms
+  = match first_raise Ms with Some e => Err e | None => Ok (map row1 Ms) end.
+Proof. exact @series_is_spec. Qed.
+
+Theorem C12_series_length : forall (F : Num) (Ms : list (@ecin F)) tab,
+  elasticity_components_series Ms = Ok tab -> length tab = length Ms.
+Proof. exact @series_length. Qed.
+
+(* row k = the row of matrix k decomposed on its own *)
+Theorem C12_series_entry_is_single : forall (F : Num) (Ms : list (@ecin F)) tab k d,
+  elasticity_components_series Ms = Ok tab -> (k < length Ms)%nat ->
+  nth k tab None = row1 (nth k Ms d).
+Proof. exact @series_entry. Qed.
+
+(* row k depends on entry k only: two series of any lengths, with any other entries in any
+   order, report the same row wherever they hold the same entry *)
+Theorem C12_series_entry_depends_on_own_matrix_only :
+  forall (F : Num) (Ms Ms' : list (@ecin F)) tab tab' k k' d,
+  elasticity_components_series Ms = Ok tab -> elasticity_components_series Ms' = Ok tab' ->
+  (k < length Ms)%nat -> (k' < length Ms')%nat -> nth k Ms d = nth k' Ms' d ->
+  nth k tab None = nth k' tab' None.
+Proof. exact @series_entry_local. Qed.
+
+(* a series of one is the single-matrix function *)
+Theorem C12_series_of_one : forall (F : Num) (x : @ecin F),
+  elasticity_components_series [x]
+  = match raises1 x with Some e => Err e | None => Ok [row1 x] end.
+Proof. exact @series_singleton. Qed.
+
+(* concatenation of series = concatenation of results *)
+Theorem C12_series_concat : forall (F : Num) (A B : list (@ecin F)) ta tb,
+  elasticity_components_series A = Ok ta -> elasticity_components_series B = Ok tb ->
+  elasticity_components_series (A ++ B) = Ok (ta ++ tb).
+Proof. exact @series_app. Qed.
+
+(* any selection p of the entries -- a permutation, repeated entries, a sub-series -- gives
+   the same selection of the rows *)
+Theorem C12_series_reorder_repeat_select :
+  forall (F : Num) (Ms : list (@ecin F)) tab (p : list nat) d,
+  elasticity_components_series Ms = Ok tab -> (forall i, In i p -> (i < length Ms)%nat) ->
+  elasticity_components_series (map (fun i => nth i Ms d) p)
+  = Ok (map (fun i => nth i tab None) p).
+Proof. exact @series_select. Qed.
+
+(* the call raises exactly when some entry raises, and then what the first raising entry
+   raises *)
+Theorem C12_series_raises_first : forall (F : Num) (Ms : list (@ecin F)) e,
+  elasticity_components_series Ms = Err e <->
+  exists A x B, Ms = A ++ x :: B /\ (forall y, In y A -> raises1 y = None) /\ raises1 x = Some e.
+Proof. exact @series_raises_first. Qed.
+
+(* every initialised row is a result of elasticity_components1 on its own entry, so every
+   single-matrix theorem above holds on every row of every series ... *)
+Theorem C12_series_row_is_single_result :
+  forall (F : Num) (Ms : list (@ecin F)) tab k M Ed Ev out,
+  elasticity_components_series Ms = Ok tab -> nth_error Ms k = Some (M, Ed, Ev) ->
+  nth k tab None = Some out -> elasticity_components1 M Ed Ev = Ok out.
+Proof. exact @series_row_ok. Qed.
+
+(* ... in particular the sum rule, whatever else is in the series *)
+Theorem C12_series_sum_rule :
+  forall (Ms : list (@ecin NumR)) tab k (M Ed Ev : arr NumR) out,
+  elasticity_components_series Ms = Ok tab -> nth_error Ms k = Some (M, Ed, Ev) ->
+  nth k tab None = Some out ->
+  let vm := k_upper_tri_to_symmetric_6 M in
+  sym6 vm -> (forall i, (i < 3)%nat -> orth (mat3 (@sccs_rotation NumR Ed Ev i))) ->
+  nth 3 out 0 * nth 3 out 0 + nth 4 out 0 * nth 4 out 0 + nth 5 out 0 * nth 5 out 0
+  + nth 6 out 0 * nth 6 out 0 + nth 7 out 0 * nth 7 out 0
+  = nth 2 out 0 * nth 2 out 0.
+Proof. exact series_sum_rule_orth. Qed.
+
+(* ... and frame independence across series: the rotated tensor as entry k of one series, the
+   unrotated tensor as entry k0 of another, any companions: outputs 0..7 agree *)
+Theorem C12_series_outputs_frame_invariant :
+  forall (Ms0 Ms : list (@ecin NumR)) tab0 tab k0 k
+         (M0 Ed0 Ev0 M Ed Ev Rq : arr NumR) (mud0 muv0 mud muv : nat -> R) (out0 out : list R),
+  elasticity_components_series Ms0 = Ok tab0 -> nth_error Ms0 k0 = Some (M0, Ed0, Ev0) ->
+  nth k0 tab0 None = Some out0 ->
+  elasticity_components_series Ms = Ok tab -> nth_error Ms k = Some (M, Ed, Ev) ->
+  nth k tab None = Some out ->
+  let vm0 := k_upper_tri_to_symmetric_6 M0 in
+  let vm := k_upper_tri_to_symmetric_6 M in
+  let T0 := t4 (k_voigt_to_elastic_tensor vm0) in
+  sym6 vm0 -> ortho4 T0 ->
+  distinct3 (fun k => dil4 T0 k k) -> distinct3 (fun k => dev4 T0 k k) ->
+  (exists kst, strict_min3 (hex_dist T0) kst) ->
+  orth (mat3 Ed0) -> eigcols (mat3 (fst (k_voigt_decompose vm0))) (mat3 Ed0) mud0 ->
+  orth (mat3 Ev0) -> eigcols (mat3 (snd (k_voigt_decompose vm0))) (mat3 Ev0) muv0 ->
+  sym6 vm -> orth (mat3 Rq) -> eq4b (t4 (k_voigt_to_elastic_tensor vm)) (rot4 T0 (mat3 Rq)) ->
+  orth (mat3 Ed) -> eigcols (mat3 (fst (k_voigt_decompose vm))) (mat3 Ed) mud ->
+  orth (mat3 Ev) -> eigcols (mat3 (snd (k_voigt_decompose vm))) (mat3 Ev) muv ->
+  forall n, (n < 8)%nat -> nth n out 0 = nth n out0 0.
+Proof. exact series_outputs_frame_invariant. Qed.
+
+(* non-vacuity: a series of two entries (diag(1,2,4,1,1,1), identity eigh outputs) does not
+   raise and returns two initialised rows *)
+Example C12_series_nonvacuous :
+  let x : @ecin NumR := (M_ortho_example2, @eye3 NumR, @eye3 NumR) in
+  exists out, elasticity_components_series [x; x] = Ok [Some out; Some out] /\
+              raises1 x = None.
+Proof. exact series_nonvacuous_proof. Qed.
